@@ -91,7 +91,12 @@ def run_case(case, res):
     rng = random.Random(case["seed"])
     cfg = extsplit.gen_config(rng, case.get("tier", "quick"), versions=(0, 0, 1, 2))
     d = cfg["d"]
-    f = hooks.VFunction([hooks.comp_hash(case["seed"]), hooks.comp_peak([0.3] * d, 0.2)])
+    if rng.random() < 0.12:
+        # an integer-valued function (labels / counts): eval() returns an integer-typed array
+        f = hooks.VFunction([hooks.comp_int_hash(case["seed"]), hooks.comp_int_hash(case["seed"] + 1)], integer_valued=True)
+        res.count("integer_valued_function")
+    else:
+        f = hooks.VFunction([hooks.comp_hash(case["seed"]), hooks.comp_peak([0.3] * d, 0.2)])
     err = extsplit.make_err(cfg)
     res.sample = {"config": cfg}
     obs = Obs(res, f, cfg, err if cfg["profile"] != "real" else None, rng)
